@@ -1713,6 +1713,29 @@ dt_dtdiff(dt_dtdurtyp_t tgttyp, struct dt_dt_s d1, struct dt_dt_s d2)
 	} else if (tgttyp && (dt_durtyp_t)tgttyp < DT_NDURTYP) {
 		res.durtyp = tgttyp;
 		res.d = dt_ddiff((dt_durtyp_t)tgttyp, d1.d, d2.d, dt);
+		if (UNLIKELY(tgttyp == DT_DURBD && dt)) {
+			/* business days aren't 86400 seconds long, count the
+			 * whole ones from the earlier operand and express the
+			 * rest, weekends and all, in seconds */
+			const int dd = dt_ddiff(DT_DURD, d1.d, d2.d, 0).dv;
+			const bool neg = dd < 0 || (!dd && dt < 0);
+			const struct dt_d_s e = !neg ? d1.d : d2.d;
+			const struct dt_d_s l = !neg ? d2.d : d1.d;
+			int nb = dt_ddiff(DT_DURBD, e, l, 0).dv;
+			int64_t rest;
+
+			dt = !neg ? dt : -dt;
+			rest = dt + (int64_t)SECS_PER_DAY *
+				dt_ddiff(DT_DURD, dt_dadd_b(e, nb), l, 0).dv;
+			if (rest < 0) {
+				rest = dt + (int64_t)SECS_PER_DAY *
+					dt_ddiff(DT_DURD, dt_dadd_b(e, --nb), l, 0).dv;
+			}
+			res.d.dv = !neg ? nb : -nb;
+			res.t.sdur = !neg ? rest : -rest;
+			res.t.nsdur = 0;
+			return res;
+		}
 		dt = !res.neg ? dt : -dt;
 		dt = !res.d.fix ? dt
 			: dt > 0 ? dt - SECS_PER_DAY
